@@ -98,6 +98,8 @@ def z3_timeout_ms(tier):
 
 
 NO_CONTRACT_PREFIXES = ("ext:", "comp:")
+SOFT_PREFIXES = ("ext:builtins.", "ext:typing.", "ext:copy.")
+SOFT_MODULES = ("builtins.", "typing.", "copy.")
 
 
 def _no_contract_symbols(exprs):
@@ -152,13 +154,19 @@ def smt_decider(hyps, goal, tier="quick", model_vars=None, model_fn=None, second
             except Exception:
                 model = {"_raw": str(m)[:2000], "_extract_error": traceback.format_exc()[-400:]}
             status, detail = REFUTED, "sat"
-            # A counter-model that may rest on what a library call WITHOUT an assumed contract does (its uninterpreted result
-            # `ext:...`, an unfolded comprehension `comp:...`, or "it might raise") is a missing contract, not yet a
-            # counterexample: marked NO-CONTRACT, and the caller (vcore/main.py) keeps it as a violation only if its replay
-            # finds a failing input on the real code; otherwise it is reported undecided.
-            nc = sat_means or _no_contract_symbols(list(hyps) + [goal])
-            if nc:
-                detail = "sat NO-CONTRACT: " + (nc if isinstance(nc, str) else "the formula mentions library calls without an assumed contract: " + ", ".join(nc))
+            # A counter-model that rests ONLY on what a pure builtin without an assumed contract does (`dict(kwargs)`, `list(xs)`,
+            # `sorted(...)`, `typing.cast`, `copy.copy`: the calls behaviour-preserving edits are made of) -- its uninterpreted
+            # result `ext:builtins.*`, or "it might raise" -- is a missing contract, not yet a counterexample: marked
+            # NO-CONTRACT, and the caller (vcore/main.py) keeps it as a violation only if its replay finds a failing input on
+            # the real code; otherwise it is reported undecided.  Data routed through any OTHER unmodelled function (zlib,
+            # unicodedata, json, re.sub, an un-unfolded comprehension, ...) stays a refutation: the contract cannot be
+            # carried through a transformation nobody vouches for.
+            names = _no_contract_symbols(list(hyps) + [goal])
+            soft = bool(names) and all(n.startswith(SOFT_PREFIXES) for n in names)
+            if sat_means and (not names or soft):
+                detail = "sat NO-CONTRACT: " + sat_means
+            elif soft and not sat_means:
+                detail = "sat NO-CONTRACT: the formula mentions pure builtins without an assumed contract: " + ", ".join(names)
         else:
             # z3 unknown: let cvc5 try
             smt2 = s.to_smt2()
